@@ -275,8 +275,7 @@ func ext۰runtime۰GOMAXPROCS(fr *frame, args []value) value {
 }
 
 func ext۰runtime۰Goexit(fr *frame, args []value) value {
-	// TODO(adonovan): don't kill the interpreter's main goroutine.
-	runtime.Goexit()
+	unsupported("runtime.Goexit")
 	return nil
 }
 
